@@ -236,7 +236,7 @@ def run(ctx):
     good = [r for r in recs if ver[r['id']]['ok'] and r['kind'] == 'analytic'][:3]
     bad = []
     for k, r in enumerate(good):
-        r2 = json.loads(json.dumps(r)); r2['id'] = 10**9 + k; r2['total'] += 400
+        r2 = core.jcopy(r); r2['id'] = 10**9 + k; r2['total'] += 400
         bad.append(r2)
     vb = core.validate_batch(ctx, 'Trace_PSFModels', bad, 'SelfTest:PSFModels', shards=1)
     ctx.selftest('perturbed total flux', all(not v['ok'] for v in vb.values()))
